@@ -2,7 +2,7 @@
    own output decodable, absent fields stay empty, version number-or-string. *)
 From Coq Require Import ZArith List String Ascii Bool Lia Permutation.
 From Verif Require Import C05.Json C05.Schema C05.Model C05.Fmt C05.Osm C05.Spec C05.SortTags
-     C05.Fields C05.ProofsGeneric.
+     C05.Fields C05.ProofsGeneric C05.Resolve.
 From VerifGen Require Import GenJsonTags.
 Import ListNotations.
 Open Scope string_scope.
@@ -43,15 +43,7 @@ Proof.
   eexists; eexists; split; [reflexivity|vm_compute; reflexivity].
 Qed.
 
-Lemma lookup_f_none : forall ns n kv,
-  (forall k, In k (keys kv) -> resolve ns k = None) -> lookup_f ns n kv = None.
-Proof.
-  intros ns n kv. induction kv as [|[k j] r IH]; intros H; [reflexivity|].
-  cbn [lookup_f]. rewrite IH by (intros k' Hk'; apply H; right; exact Hk').
-  rewrite (H k) by (left; reflexivity). reflexivity.
-Qed.
-
-Lemma find_type_obj : forall kv nm, lookup_f ["type"] "type" kv = Some (JStr nm) -> nm <> "" ->
+Lemma find_type_obj : forall kv nm, entries_f ["type"] "type" kv = [JStr nm] -> nm <> "" ->
   find_type (JObj kv) = Ok nm.
 Proof.
   intros kv nm H Hne. unfold find_type, t_typeStruct, f_typeStruct. rewrite dec_struct.
@@ -59,12 +51,18 @@ Proof.
   destruct (String.eqb nm "") eqn:E; [apply String.eqb_eq in E; contradiction|reflexivity].
 Qed.
 
-Lemma type_first : forall j rest, no_type_key (keys rest) = true ->
-  lookup_f ["type"] "type" (("type", j) :: rest) = Some j.
+Lemma no_type_key_unknown : forall rest, no_type_key (keys rest) = true ->
+  forall k, In k (keys rest) -> resolve ["type"] k = None.
 Proof.
-  intros j rest H. cbn [lookup_f]. rewrite lookup_f_none; [reflexivity|].
-  intros k Hk. unfold no_type_key in H. rewrite forallb_forall in H. specialize (H k Hk).
+  intros rest H k Hk. unfold no_type_key in H. rewrite forallb_forall in H. specialize (H k Hk).
   destruct (resolve ["type"] k); [discriminate H|reflexivity].
+Qed.
+
+Lemma type_first : forall j rest, no_type_key (keys rest) = true ->
+  entries_f ["type"] "type" (("type", j) :: rest) = [j].
+Proof.
+  intros j rest H. cbn [entries_f]. rewrite entries_f_unknown; [reflexivity|].
+  apply no_type_key_unknown. exact H.
 Qed.
 
 Lemma no_type_key_sub : forall a b, (forall k, In k a -> In k b) -> no_type_key b = true -> no_type_key a = true.
@@ -172,6 +170,7 @@ Proof.
   intros a b c d e els. rewrite enc_struct, dec_struct.
   rewrite dec_fields_exact.
   2:{ intros k Hk. apply (keys_enc_fields mo) in Hk. vm_compute in Hk |- *. tauto. }
+  2:{ apply enc_fields_keys_nodup. vm_compute. reflexivity. }
   unfold f_OSM_MarshalJSON, f_OSM_UnmarshalJSON.
   cbn [enc_fields is_empty andb].
   assert (Hm : map (fun v : val => match v with VJson j => j | _ => JNull end) (map VJson els) = els)
@@ -271,43 +270,50 @@ Proof.
     repeat split; congruence.
 Qed.
 
-(* the document entry that the decoder uses for header field n: the last key that is n
-   exactly or up to ASCII case *)
 Definition hdr_names : list string := names f_OSM_UnmarshalJSON.
-Definition hlookup (n : string) (kv : list (string * json)) : option json := lookup_f hdr_names n kv.
 
-Definition str_field (kv : list (string * json)) (n : string) (s : string) : Prop :=
-  match hlookup n kv with
-  | None | Some JNull => s = ""
-  | Some (JStr x) => s = x
-  | Some _ => False
-  end.
+Lemma hdr_names_folds : NoDup (map fold_case hdr_names).
+Proof. vm_compute. repeat constructor; simpl; intuition discriminate. Qed.
+
+(* the decoder's entries for a header field are exactly the document's values for that name
+   up to case (Spec.field_values, written independently of the resolution) *)
+Lemma hdr_entries : forall n kv, In n hdr_names -> entries_f hdr_names n kv = field_values n kv.
+Proof. intros n kv H. apply entries_f_spec; [exact hdr_names_folds|exact H]. Qed.
 
 Lemma rbind_ok : forall {A B} (r : res A) (f : A -> res B) b,
   rbind r f = Ok b -> exists a, r = Ok a /\ f a = Ok b.
 Proof. intros A B r f b H. destruct r; try discriminate H. exists a. split; [reflexivity|exact H]. Qed.
 
-Lemma str_field_dec : forall kv n v, dec_field hdr_names kv n TStr = Ok v -> exists s, v = VStr s /\ str_field kv n s.
+Definition str_acc (acc : res val) : Prop :=
+  match acc with Ok (VStr _) => True | Ok _ => False | _ => True end.
+
+Lemma fold_str_acc : forall l acc, str_acc acc ->
+  str_acc (fold_left (fun cur j => rbind cur (fun c => if is_null j && null_noop TStr then Ok c else dec TStr j)) l acc).
 Proof.
-  intros kv n v H. unfold dec_field, str_field, hlookup in *. destruct (lookup_f hdr_names n kv) as [j|].
-  - destruct j; simpl in H; try discriminate H; injection H as <-; eexists; split; reflexivity.
-  - injection H as <-. exists "". split; reflexivity.
+  induction l as [|x l IH]; intros acc Ha; [exact Ha|].
+  cbn [fold_left]. apply IH. destruct acc as [v| |]; try exact I.
+  destruct v; try contradiction. destruct x; exact I.
 Qed.
 
-Definition version_says (kv : list (string * json)) (s : string) : Prop :=
-  match hlookup "version" kv with
-  | None | Some JNull => s = ""                                (* absent stays empty *)
-  | Some (JStr x) => s = x                                     (* version as string *)
-  | Some (JNum m k) => s = fmt_g m k                           (* version as number *)
-  | Some (JBool b) => s = (if b then "true" else "false")
-  | Some _ => False
-  end.
+Lemma string_field_dec : forall kv n v, In n hdr_names -> dec_field hdr_names kv n TStr = Ok v ->
+  exists s, v = VStr s /\ string_field_spec kv n s.
+Proof.
+  intros kv n v Hn H. unfold dec_field in H. rewrite (hdr_entries n kv Hn) in H.
+  unfold string_field_spec, header_entry. destruct (field_values n kv) as [|j [|j2 r]].
+  - injection H as <-. exists "". split; reflexivity.
+  - destruct j; simpl in H; try discriminate H; injection H as <-; eexists; split; reflexivity.
+  - cbn [dec_occs seq_type] in H.
+    pose proof (fold_str_acc (j :: j2 :: r) (Ok (zero TStr)) I) as P. rewrite H in P.
+    destruct v; try contradiction. exists s. split; [reflexivity|exact I].
+Qed.
 
-(* what a successfully decoded document's header says, for every document object *)
+(* what a successfully decoded document's header says, for every document object: the
+   specification side (Spec.version_spec / string_field_spec) is written over the document's
+   keys compared case-insensitively, independently of the model's resolution *)
 Theorem header_of_document : forall kv o, osm_unmarshal (JObj kv) = Ok o ->
-  version_says kv (o_version o)
-  /\ str_field kv "generator" (o_generator o) /\ str_field kv "copyright" (o_copyright o)
-  /\ str_field kv "attribution" (o_attribution o) /\ str_field kv "license" (o_license o).
+  version_spec kv (o_version o)
+  /\ string_field_spec kv "generator" (o_generator o) /\ string_field_spec kv "copyright" (o_copyright o)
+  /\ string_field_spec kv "attribution" (o_attribution o) /\ string_field_spec kv "license" (o_license o).
 Proof.
   intros kv o H. unfold osm_unmarshal, unmarshal_with in H. rewrite dec_struct in H.
   change (names f_OSM_UnmarshalJSON) with hdr_names in H.
@@ -326,15 +332,22 @@ Proof.
   apply rbind_ok in H. destruct H as [l5 [H E5]]. injection E5 as <-.
   apply rbind_ok in H. destruct H as [ve [He H]].
   injection H as <-.
-  destruct (str_field_dec _ _ _ Hg) as [sg [-> Fg]]. destruct (str_field_dec _ _ _ Hc) as [sc [-> Fc]].
-  destruct (str_field_dec _ _ _ Ha) as [sa [-> Fa]]. destruct (str_field_dec _ _ _ Hl) as [sl [-> Fl]].
-  assert (Ev : vv = VJson (match hlookup "version" kv with Some j => j | None => JNull end)).
-  { unfold dec_field, hlookup in *. destruct (lookup_f hdr_names "version" kv); simpl in Hv; injection Hv as <-; reflexivity. }
-  subst vv. destruct ve; try discriminate H0.
+  assert (In1 : In "generator" hdr_names) by (vm_compute; tauto).
+  assert (In2 : In "copyright" hdr_names) by (vm_compute; tauto).
+  assert (In3 : In "attribution" hdr_names) by (vm_compute; tauto).
+  assert (In4 : In "license" hdr_names) by (vm_compute; tauto).
+  assert (In0 : In "version" hdr_names) by (vm_compute; tauto).
+  destruct (string_field_dec _ _ _ In1 Hg) as [sg [-> Fg]]. destruct (string_field_dec _ _ _ In2 Hc) as [sc [-> Fc]].
+  destruct (string_field_dec _ _ _ In3 Ha) as [sa [-> Fa]]. destruct (string_field_dec _ _ _ In4 Hl) as [sl [-> Fl]].
+  unfold dec_field in Hv. rewrite (hdr_entries "version" kv In0) in Hv.
+  destruct vv; try (destruct ve; discriminate H0).
+  destruct ve; try discriminate H0.
   apply rbind_ok in H0. destruct H0 as [vs [Hvs H0]].
   apply add_elements_header in H0. cbn in H0. destruct H0 as [B1 [B2 [B3 [B4 B5]]]].
   rewrite B1, B2, B3, B4, B5. repeat split; try assumption.
-  unfold version_says. destruct (hlookup "version" kv) as [j|]; [|injection Hvs as <-; reflexivity].
-  destruct j; simpl in Hvs; try discriminate Hvs; try (injection Hvs as <-; reflexivity).
-  destruct b; injection Hvs as <-; reflexivity.
+  unfold version_spec, header_entry. destruct (field_values "version" kv) as [|j1 [|j2 r]]; [| |exact I].
+  - injection Hv as <-. injection Hvs as <-. reflexivity.
+  - simpl in Hv. injection Hv as <-.
+    destruct j1; simpl in Hvs; try discriminate Hvs; try (injection Hvs as <-; reflexivity).
+    destruct b; injection Hvs as <-; reflexivity.
 Qed.
